@@ -138,6 +138,8 @@ def run_cli(shard, ctx):
     for i in range(shard["n"]):
         rng = rng_for(shard["seed"], "c11cli", shard["index"], i)
         cr = cli_runs.text_case(rng, scratch / f"c{i}", fmt=rng.choice(["tpf", "agp"]), tagged=True, two_hap=(i % 4 == 3), strands=(1, -1))
+        if i % 2 == 0 and cli_runs.add_haplotig_slivers(rng, cr):
+            ctx.count("cli:cases-with-haplotig-slivers")
         try:
             check_cli(cr, ctx)
         finally:
@@ -178,5 +180,6 @@ def gates(c, tier):
         "label:in:1bp-contig": 100,
         "cli:ok": 20,
         "cli:with-haplotigs": 3,
+        "cli:cases-with-haplotig-slivers": 20,
     }
     return [f"{k}>={v} (got {c.get(k, 0)})" for k, v in need.items() if c.get(k, 0) < v]
